@@ -17,7 +17,7 @@ func checkC11(p *Prog, r *Report) {
 	c11Errors(p, r)
 	c11Flags(p, r)
 	c11TableKeys(p, r)
-	c11Result(p, r)
+	c11Result(p, r, "C11.R2")
 	dispatcherRule(p, r, "C11.R2b")
 	c11Loops(p, r)
 	c11Files(p, r)
@@ -228,8 +228,8 @@ func c11Flags(p *Prog, r *Report) {
 
 // ---------------------------------------------------------------- R2 exactly one result per run
 
-func c11Result(p *Prog, r *Report) {
-	r.Rule("C11.R2", "exactly one result per run: in Run the run body's error is stored in the RunReturn and the send on the result channel lies on every path to the normal exit (guarded only by the channel being non-nil)", 2)
+func c11Result(p *Prog, r *Report, rule string) {
+	r.Rule(rule, "exactly one result per run: in Run the run body's error is stored in the RunReturn and the send on the result channel lies on every path to the normal exit (guarded only by the channel being non-nil)", 2)
 	s := p.SSA()
 	run := s.runFn()
 	if run == nil {
